@@ -160,12 +160,14 @@ def render_case(n, case):
     L.append("%sARGS = %s" % (ind1, args_src))
     L.append("%sKWARGS = %s" % (ind1, kwargs_src))
     adef = "async def" if is_async else "def"
+    if case.get("adapter"):
+        adef = "@W.sync_adapter\n%sasync def"
     pattern = case.get("interleave", 0)
     if kind == "function":
         helpers = []
         decos = render_decorators(case["levels"][-1], helpers, ind1, pattern)
         L += helpers + decos
-        L.append("%s%s f(%s): return W.body(%s)" % (ind1, adef, sig_with_defaults(fsig), body_env(fsig)))
+        L.append("%s%s f(%s): return W.body(%s)" % (ind1, adef % ind1 if "%s" in adef else adef, sig_with_defaults(fsig), body_env(fsig)))
         L.append("%sreturn W.run(lambda: f(*ARGS, **KWARGS), %s)" % (ind1, is_async))
         return "\n".join(L)
     # class-based kinds
@@ -195,15 +197,15 @@ def render_case(n, case):
         L.append("%s_icv_tag = 900" % ind2)
         if kind == "method":
             L += decos
-            L.append("%s%s f(%s): return W.body(%s)" % (ind2, adef, sig_with_defaults(fsig), body_env(fsig)))
+            L.append("%s%s f(%s): return W.body(%s)" % (ind2, adef % ind2 if "%s" in adef else adef, sig_with_defaults(fsig), body_env(fsig)))
         elif kind == "staticmethod":
             L.append("%s@staticmethod" % ind2)
             L += decos
-            L.append("%s%s f(%s): return W.body(%s)" % (ind2, adef, sig_with_defaults(fsig), body_env(fsig)))
+            L.append("%s%s f(%s): return W.body(%s)" % (ind2, adef % ind2 if "%s" in adef else adef, sig_with_defaults(fsig), body_env(fsig)))
         elif kind == "classmethod":
             L.append("%s@classmethod" % ind2)
             L += decos
-            L.append("%s%s f(%s): return W.body(%s)" % (ind2, adef, sig_with_defaults(fsig), body_env(fsig)))
+            L.append("%s%s f(%s): return W.body(%s)" % (ind2, adef % ind2 if "%s" in adef else adef, sig_with_defaults(fsig), body_env(fsig)))
         elif kind == "prop_get":
             L.append("%s@property" % ind2)
             L += decos
